@@ -1,0 +1,17 @@
+//go:build verif
+
+package contentstream
+
+// VerifYield, when non-nil, is called at the points of Parse where the pending
+// operand list is about to be read or written ("operand" before an operand is
+// pushed, "operator" before the list is copied into an Operation, "copied"
+// before it is cleared). A verification harness installs a blocking function
+// here to step several parsers through a chosen interleaving. Builds without
+// the verif tag compile this to nothing.
+var VerifYield func(point string, p *Parser)
+
+func verifYield(point string, p *Parser) {
+	if f := VerifYield; f != nil {
+		f(point, p)
+	}
+}
